@@ -80,7 +80,7 @@ def gen_case(g, tier, idx):
     ncalls = r.choice([1, 1, 2, 3])
     seq = ["kfpv", str(n), "1" if exo else "0", str(ncalls)]
     singles = []
-    varied = nskip = 0
+    varied = nskip = handed = 0
     for c in range(ncalls):
         if c > 0 and r.random() < 0.6:
             F2, Q2 = gen_FQ(g, style, n)
@@ -95,6 +95,8 @@ def gen_case(g, tier, idx):
         head = vlib.fmt_mat_cm(F) + vlib.fmt_mat_cm(Q)
         if exo:
             head += vlib.fmt_mat_cm(G) + [hexd(v) for v in gv]
+        hand = r.choice([0, 0, 0, 1, 2])           # object handed over by move construction / move assignment
+        handed += (hand != 0)
         hist = skip_history(r, exo)
         nskip += len(hist)
         k = r.choice([1, 1, 2, 3, 4, 6])
@@ -118,9 +120,9 @@ def gen_case(g, tier, idx):
         toks = [hexd(means[c2][i]) for c2 in range(k) for i in range(n)]
         toks += [hexd(Ps[c2][i][j]) for c2 in range(k) for j in range(n) for i in range(n)]
         toks += [hexd(r.uniform(0.01, 1.0)) for _ in range(k)]
-        seq += head + [str(len(hist))] + [str(x) for cmd in hist for x in cmd] + [str(k)] + toks
+        seq += [str(hand)] + head + [str(len(hist))] + [str(x) for cmd in hist for x in cmd] + [str(k)] + toks
         singles.append(" ".join(["kfp", str(n), str(k), "1" if exo else "0"] + head + toks))
-    return " ".join(seq), singles, {"style": style, "n": n, "exo": exo, "calls": ncalls, "model_changes": varied, "skip_commands": nskip}
+    return " ".join(seq), singles, {"style": style, "n": n, "exo": exo, "calls": ncalls, "model_changes": varied, "skip_commands": nskip, "hand_overs": handed}
 
 
 def split_seq_output(hout, ncalls):
@@ -223,6 +225,7 @@ def replay_case(path):
     if t[0] == "kfpv":
         ncalls = int(t[3]); p = 4
         for _ in range(ncalls):
+            p += 1                                   # hand-over flag
             head = t[p:p + hl]; p += hl
             ns = int(t[p]); p += 1 + 2 * ns
             k = int(t[p]); p += 1
@@ -263,7 +266,11 @@ def run(ctx):
         outs = split_seq_output(h, len(slines)) if hline.startswith(("kfps", "kfpv")) else [h]
         for sl, ho in zip(slines, outs):
             distinct.add(sl)
-            for kind, key2, what in check_case(sl, ho, dout[pos], stats):
+            try:
+                res = check_case(sl, ho, dout[pos], stats)
+            except Exception as ex:       # malformed / short / non-numeric output of a (mutated) implementation
+                res = [("prop", "unreadable-result", "output of the implementation cannot be evaluated (%s: %s): %s" % (type(ex).__name__, ex, ho[:120]))]
+            for kind, key2, what in res:
                 (corr_bad if kind == "corr" else prop_bad).append((key2, what, hline, h))
             pos += 1
     for key2, what, line, h in prop_bad[:20]:
